@@ -35,6 +35,24 @@ type EditConn struct {
 
 var ErrInjected = errors.New("connection reset by peer (injected)")
 
+// ErrDrop, returned by OnOutbound, makes the relay swallow the frame: the
+// endpoint's Write succeeds and nothing reaches the peer.
+var ErrDrop = errors.New("editconn: drop frame")
+
+// AnswerAndCutOff makes the relay itself answer: the endpoint's next Read
+// delivers one frame with this body (end flag 1), every Read after it fails, and
+// nothing more is taken from the real peer.
+func (c *EditConn) AnswerAndCutOff(body []byte) {
+	c.rmu.Lock()
+	f := make([]byte, 5+len(body))
+	f[0] = 1
+	binary.BigEndian.PutUint32(f[1:5], uint32(len(body)))
+	copy(f[5:], body)
+	c.rbuf = append(c.rbuf, f...)
+	c.rbroken = ErrInjected
+	c.rmu.Unlock()
+}
+
 // BreakReads makes every later Read fail (the peer's reply is lost).
 func (c *EditConn) BreakReads() {
 	c.rmu.Lock()
@@ -91,6 +109,10 @@ func (c *EditConn) Write(p []byte) (int, error) {
 		frame := c.wbuf[:5+n]
 		if c.OnOutbound != nil {
 			nb, err := c.OnOutbound(frame[0], frame[5:])
+			if err == ErrDrop {
+				c.wbuf = c.wbuf[5+n:]
+				continue
+			}
 			if err != nil {
 				c.wbuf = nil
 				return 0, err
